@@ -27,7 +27,7 @@ ToSet(s) == {s[i] : i \in 1..Len(s)}
 Blank == /\ adding = [n \in Node |-> [b \in Block |-> 0]]
          /\ rq = [r \in Req |-> NoReq]
          /\ delivered = [r \in Req |-> <<>>]
-         /\ larr = [r \in Req |-> {}]
+         /\ larr = [r \in Req |-> {}] /\ lsure = [r \in Req |-> {}]
          /\ sess = [s \in Sess |-> NoSess]
          /\ wl = [n \in Node |-> {}]
          /\ fresh = [n \in Node |-> FALSE]
@@ -46,7 +46,7 @@ TReset == /\ IsEvent("Reset")
           /\ adding' = [n \in Node |-> [b \in Block |-> 0]]
           /\ rq' = [r \in Req |-> NoReq]
           /\ delivered' = [r \in Req |-> <<>>]
-          /\ larr' = [r \in Req |-> {}]
+          /\ larr' = [r \in Req |-> {}] /\ lsure' = [r \in Req |-> {}]
           /\ sess' = [s \in Sess |-> NoSess]
           /\ wl' = [n \in Node |-> {}]
           /\ fresh' = [n \in Node |-> FALSE]
@@ -70,6 +70,7 @@ TRequest == /\ IsEvent("Request") /\ Ev.r \in Req /\ Ev.node \in Node /\ Ev.s \i
                         {c \in ToSet(Ev.near) : rq[c].st # "none" /\ rq[c].node = Ev.node /\ (rq[c].canc \/ ~Open(c))
                                                  /\ (Ev.s = 0 \/ rq[c].s # Ev.s)}}]
             /\ UNCHANGED <<dev, rc, kA>>
+TIssued == IsEvent("Issued") /\ Ev.r \in Req /\ Issued(Ev.r) /\ UNCHANGED <<dev, aux>>
 TDeliver == /\ IsEvent("Deliver") /\ Ev.r \in Req /\ Ev.b \in Block /\ Ev.from \in Node \cup {0}
             /\ Ev.ok = TRUE                                  \* bytes are the block's bytes (projection)
             /\ Deliver(Ev.r, Ev.b, Ev.from) /\ kG' = Cross(Ev.r, {Ev.b}) /\ UNCHANGED <<dev, rc, kA, kF, hasAt>>
@@ -169,7 +170,7 @@ TSnapshotDev == /\ Devs # {}
                      /\ dev' = dev \cup {Excuse(Ev.node, k) : k \in X}
                      /\ wl' = [wl EXCEPT ![Ev.node] = W]
                 /\ fresh' = [fresh EXCEPT ![Ev.node] = FALSE]     \* no Cleanup claim for this snapshot
-                /\ UNCHANGED <<adj, has, adding, rq, delivered, larr, sess, aux>>
+                /\ UNCHANGED <<adj, has, adding, rq, delivered, larr, lsure, sess, aux>>
 
 TimeoutExcuse(r) == IF "Dev_C37_SharedWantCancelled" \in Devs /\ kA[r] \cap Awaited(r) # {} THEN "Dev_C37_SharedWantCancelled"
                ELSE IF "Dev_C37_RewantAfterCancel" \in Devs /\ kF[r] \cap Awaited(r) # {} THEN "Dev_C37_RewantAfterCancel"
@@ -183,7 +184,7 @@ TTimeoutDev == /\ Devs # {}
                /\ UNCHANGED <<vars, aux>>
 
 TNext == \/ TReset \/ TOpenSession \/ TRequest \/ TDeliver \/ TCancel \/ TCancelSession
-         \/ TClose \/ TAddBlock \/ TAddDone \/ TSnapshot \/ TTimeout \/ TTimeoutDev \/ TSnapshotDev
+         \/ TIssued \/ TClose \/ TAddBlock \/ TAddDone \/ TSnapshot \/ TTimeout \/ TTimeoutDev \/ TSnapshotDev
 TSpec == TInit /\ [][TNext]_tvars
 
 TraceConstraint == TLCSet(1, IF l - 1 > TLCGet(1) THEN l - 1 ELSE TLCGet(1))
